@@ -98,11 +98,10 @@ Issue(S, id, t, reqs, res) ==
        THEN Issue(Put(S, t, id, t + d), id + 1, t, Tail(reqs), Append(res, id))
        ELSE Issue(S, id, t, Tail(reqs), Append(res, -1))   \* rejected (past) or out of ids: nothing changes
 
-(* one event dispatched inside a dispatch_* call *)
-Dispatch ==
+(* one event dispatched inside a dispatch_* call; the handler issues the follow-up requests `reqs` *)
+DispatchWith(reqs) ==
   /\ CanDispatch
   /\ LET e == MinOf(pending) IN
-     \E reqs \in Menu :
        /\ (\A k \in 1..Len(reqs) : reqs[k] = -1 => e.t > 0)
        /\ Cardinality({k \in 1..Len(reqs) : reqs[k] >= 0}) + nid <= MaxId + 1
        /\ LET r == Issue(pending \ {e}, nid, e.t, reqs, <<>>) IN
@@ -110,6 +109,7 @@ Dispatch ==
           /\ cur' = e.t /\ now' = e.t /\ itr' = itr + 1
           /\ ret' = [op |-> "handle", id |-> e.id, t |-> e.t, reqs |-> reqs, ids |-> r[3]]
   /\ UNCHANGED <<phase, mode, limit, nsteps, next>>
+Dispatch == \E reqs \in Menu : DispatchWith(reqs)
 
 (* the dispatch_* call returns *)
 EndStep == /\ mode.k # "idle" /\ ~CanDispatch
